@@ -52,6 +52,22 @@ def _cls(kind, n):
         bbody = "".join(f"    {f}: typing.Any\n" for f in fields[:nb]) or "    pass\n"
         cbody = "".join(f"    {f}: typing.Any\n" for f in fields[nb:]) or "    pass\n"
         src = f"import dataclasses, typing\n{deco}\nclass {name}_base:\n{bbody}{deco}\nclass {name}({name}_base):\n{cbody}"
+    elif kind == "dcfalsy":
+        body = "".join(f"    {f}: typing.Any\n" for f in fields) or "    pass\n"
+        src = (f"import dataclasses, typing\n@dataclasses.dataclass\nclass {name}:\n{body}"
+               "    def __bool__(self): return False\n    def __len__(self): return 0\n")
+    elif kind == "ntfalsy":
+        body = "".join(f"    {f}: typing.Any\n" for f in fields) or "    pass\n"
+        src = f"import typing\nclass {name}(typing.NamedTuple):\n{body}    def __bool__(self): return False\n"
+    elif kind == "plaindesc":
+        # every member is a property over a raw entry of the same name in the instance __dict__ (what the attribute returns is
+        # the member's value; the raw entry is a wrapper around it)
+        body = "".join(f"    {f}: typing.Any\n" for f in fields)
+        args = "".join(f", {f}" for f in fields)
+        init = "".join(f"        self.__dict__[{f!r}] = ('raw', {f})\n" for f in fields) or "        pass\n"
+        props = "".join(f"    {f} = property(lambda self: self.__dict__[{f!r}][1], lambda self, v: self.__dict__.__setitem__({f!r}, ('raw', v)))\n"
+                        for f in fields)
+        src = f"import typing\nclass {name}:\n{body}    def __init__(self{args}):\n{init}{props}"
     elif kind == "plain":
         body = "".join(f"    {f}: typing.Any\n" for f in fields) + "    _p: int\n"
         args = "".join(f", {f}" for f in fields)
@@ -82,6 +98,13 @@ def _cls(kind, n):
     elif kind == "nt":
         body = "".join(f"    {f}: typing.Any\n" for f in fields) or "    pass\n"
         src = f"import typing\nclass {name}(typing.NamedTuple):\n{body}"
+    elif kind == "cmapfalsy":
+        src = (f"import collections.abc\nclass {name}(collections.abc.Mapping):\n"
+               "    def __init__(self, d): self._d = dict(d)\n"
+               "    def __getitem__(self, k): return self._d[k]\n"
+               "    def __iter__(self): return iter(self._d)\n"
+               "    def __len__(self): return len(self._d)\n"
+               "    def __bool__(self): return False\n")
     elif kind == "cmap":
         src = (f"import collections.abc\nclass {name}(collections.abc.Mapping):\n"
                "    def __init__(self, d): self._d = dict(d)\n"
@@ -104,11 +127,12 @@ def _cls(kind, n):
 def materialise(kind, elems):
     n = len(elems)
     es = [_elem(s, i + 1, kind) for i, s in enumerate(elems)]
-    if kind in ("dict", "odict", "mproxy", "cmap"):
+    if kind in ("dict", "odict", "mproxy", "cmap", "cmapfalsy"):
         d = {f"k{i + 1}": e for i, e in enumerate(es)}
         return {"dict": lambda: d, "odict": lambda: collections.OrderedDict(d),
-                "mproxy": lambda: types.MappingProxyType(d), "cmap": lambda: _cls("cmap", 0)(d)}[kind](), es
-    if kind in ("dc", "dcslots", "plain", "nt", "dcchild", "dcslotschild", "plainchild"):
+                "mproxy": lambda: types.MappingProxyType(d), "cmap": lambda: _cls("cmap", 0)(d),
+                "cmapfalsy": lambda: _cls("cmapfalsy", 0)(d)}[kind](), es
+    if kind in ("dc", "dcslots", "plain", "nt", "dcchild", "dcslotschild", "plainchild", "dcfalsy", "ntfalsy", "plaindesc"):
         return _cls(kind, n)(*es), es
     if kind in ("slotsonly", "varsonly", "slotsonlychild", "slotsonlygrand"):
         o = _cls(kind, n)()
